@@ -96,10 +96,12 @@ def finish(prop, tier, seed, level, results, t0, functions, assumptions, trusted
     os.makedirs(REPLAYS, exist_ok=True)
     open_known, _fixed = load_known()
     known_for = {(p, o): what for p, o, what in open_known}
+    refuted = [r for r in results if r.status == "refuted"]
+    attempted = [r for r in results if getattr(r, "optional", False) and r.status != "refuted"]
+    results = [r for r in results if r not in attempted]
     proof = [r for r in results if r.bounded is None and r.backend != "guard"]
     bounded = [r for r in results if r.bounded is not None]
     guards = [r for r in results if r.backend == "guard"]
-    refuted = [r for r in results if r.status == "refuted"]
     undecided = [r for r in results if r.status not in ("discharged", "refuted", "vacuity-ok", "ok")]
     violations, known_hits = [], []
     for r in refuted:
@@ -153,6 +155,7 @@ def finish(prop, tier, seed, level, results, t0, functions, assumptions, trusted
         "exhaustive": False,
         "explanation": explanation,
     }
+    if attempted: cov["attempted_not_verified"] = [r.row() for r in attempted]
     if known_hits: cov["known_findings_hit"] = [r.name for r in known_hits]
     if extra_cov: cov.update(extra_cov)
     ev = {"property_id": prop, "tier": tier, "seed": int(seed), "level": level, "coverage": cov,
@@ -169,7 +172,9 @@ def from_smt(ob, replay_fn=None):
     backend = "guard" if ob.expect_sat else "E2"
     status = ob.status
     if status == "vacuous": status = "refuted-vacuity"
+    if getattr(ob, "optional", False) and status == "undecided": status = "attempted-not-verified"
     r = Result(ob.name, backend, status, ob.time, ob.solver or "", ob.output, ob.unit or "", None, ob.model, None, ob.file)
+    r.optional = bool(getattr(ob, "optional", False))
     if ob.status == "refuted" and (replay_fn or ob.replay):
         try:
             r.replay = (ob.replay or replay_fn)(ob)
